@@ -45,6 +45,8 @@ def plan(tier, seed):
     k = 8 if tier == 'quick' else 10
     for i in range(k):
         shards.append({'name': 'model-%d' % i, 'fn': 'shard_model', 'args': {'part': i, 'parts': k}, 'death_is_violation': True})
+    # the kernels run by the interpreter (JIT off): numpy's own bounds checks apply to every index, and the evidence lists the kernel lines executed
+    shards.append({'name': 'model-interpreted', 'fn': 'shard_model', 'args': {'part': 1, 'parts': k}, 'env': {'NUMBA_DISABLE_JIT': '1'}, 'death_is_violation': True})
     for i in range(2 if tier == 'quick' else 4):
         shards.append({'name': 'dispatch-history-%d' % i, 'fn': 'shard_dispatch', 'args': {'part': i}})
     shards.append({'name': 'cli-ratio', 'fn': 'shard_cli', 'args': {}})
